@@ -1,7 +1,7 @@
 """C11 — a dead connection handle stays dead and never touches the transport again (structural clauses)."""
 from ..core import chain, peel, phi_alts, is_call, show, AnchorLost
 from .. import paths
-from . import roles
+from . import roles, outq
 from .roles import CONN
 
 EXPLANATION = (
@@ -345,6 +345,39 @@ def rule_fatal(R):
             detail = "path: " + " -> ".join("bb%d" % x for x in leaf["path"][:40])
         R.ob("fatal-inbound/%s" % k, not bad, msg, where=c.span, detail=detail)
     R.floor("fatal-inbound", nin, 2, "error-returning calls in process_received_packet")
+
+    # a broker DISCONNECT is fatal whatever its reason code: the handler's Disconnect arm can only end in the error that
+    # process_received_packet latches on (Error::Disconnected) -- any other error would be handed to the caller with the
+    # handle still alive
+    hb, hsw_bb = outq.inbound_handler(f)
+    hsw = hb.switch_info(hsw_bb)
+    tgt = hsw["edges"].get("Disconnect")
+    okd = tgt is not None
+    why = ""
+    if okd:
+        nret = 0
+        for lf in paths.explore(hb, tgt, lambda t: False, lambda b_, x: False, max_paths=2000):
+            if lf["kind"] == "limit":
+                okd, why = False, "path limit"
+                break
+            if lf["kind"] != "return":
+                continue
+            nret += 1
+            v = paths.value_on_path(hb, [hsw["bb"]] + lf["path"], 0)
+            v = peel(v) if v is not None else None
+            good = False
+            if v is not None and v[0] == "agg" and v[3] == "Err" and v[5]:
+                e = peel(v[5][0])
+                if is_call(e, "core::convert::Into::into", "core::convert::From::from") and e[3]:
+                    e = peel(e[3][0])
+                good = e[0] == "agg" and e[2] == "Error" and e[3] == "Disconnected"
+            if not good:
+                okd, why = False, "an exit of the arm returns %s" % (show(v) if v is not None else "?")
+        okd = okd and nret >= 1
+    R.ob("fatal-inbound/disconnect-arm", okd,
+         "every exit of the inbound handler's DISCONNECT arm returns Error::Disconnected (the error process_received_packet "
+         "latches on), whatever reason code the broker gave%s" % ((": " + why) if why else ""),
+         where=hb.line(tgt) if tgt is not None else hb.span)
 
     # keep-alive expiry and any other locally constructed Disconnected: rule_ctor
 
